@@ -244,7 +244,15 @@ impl Prop for Events {
         let mut p = Profile::all();
         p.embed_nested = false;
         p.remove_weight = 4;
-        (history_strategy(p, shape, false), any::<u8>()).prop_map(|(history, observed)| Case { history, observed }).boxed()
+        (history_strategy(p, shape, false), any::<u8>(), any::<bool>())
+            .prop_map(|(mut history, observed, cleanup)| {
+                // the observed replica cleans up formatting automatically in half of the cases (the
+                // library's default): a clean-up runs after the observers, so it must be invisible
+                let n = history.cfgs.len();
+                history.cfgs[observed as usize % n].cleanup = cleanup;
+                Case { history, observed }
+            })
+            .boxed()
     }
 
     fn check(&self, case: &Case, st: &mut CaseStats) -> Result<(), Fail> {
